@@ -48,7 +48,7 @@ void bsplvb_simple(const double* knots, const unsigned nknots,
 	if (left == degree-1)
 		while (left >= 0 && x < knots[left])
 			left--;
-	else if (left == int(nknots)-degree-1)
+	if (left == int(nknots)-degree-1)
 		while (left < int(nknots)-1 && x > knots[left+1])
 			left++;	
 	
@@ -139,7 +139,7 @@ void bspline_nonzero(const double* knots, const unsigned nknots,
 	if (left == n)
 		while (left >= 0 && x < knots[left])
 			left--;
-	else if (left == int(nknots)-n-2)
+	if (left == int(nknots)-n-2)
 		while (left < int(nknots)-1 && x > knots[left+1])
 			left++;
 	
@@ -216,7 +216,7 @@ void bspline_deriv_nonzero(const double* knots, const unsigned nknots,
 	if (left == n)
 		while (left >= 0 && x < knots[left])
 			left--;
-	else if (left == int(nknots)-n-2)
+	if (left == int(nknots)-n-2)
 		while (left < int(nknots)-1 && x > knots[left+1])
 			left++;
 	
